@@ -286,6 +286,37 @@ def run(ctx):
                 anys.append(p_)
     C.check(bool(eff) and bool(anys) and all(any(guarded_by_true(atf, e_, a_) for a_ in anys) for e_ in eff), 'C10-MUST-samemodel', 'Element::add_to_file|file-is-listed-in-the-model', 'add_to_file restricts an element to a file without testing that the file is one of model.files(): a file that was removed from the model still refers to it, '
             'so elements can become attributed to a file that does not belong to the model', '%s:%d' % (atf.file, atf.line), sample={'fn': 'add_to_file', 'guard': 'model.files().any(|f| f == *file)'})
+    # add_to_file: after the element's own set was extended, the chain of parents is extended too (unless there is no parent)
+    stores_a = [pos for pos, s_ in atf.iter_stmts() if s_['k'] == 'assign' and ends_in_field(s_['dst'], 'ElementRaw.file_membership')]
+    arc = calls(atf, r'impl Element>::add_to_file_restricted$')
+    okp = len(stores_a) == 1 and len(arc) == 1
+    if okp:
+        oks_ = E.ok_exit_positions(atf)
+        cuts = set()
+        for p_ in calls(atf, r'impl Element>::parent$'):
+            # the None edge of `if let Some(parent) = self.parent()?`
+            for q, tt in atf.iter_terms():
+                if tt['k'] == 'switch' and is_local_op(tt['d']) and q in atf.reach_from(p_) and atf.pos_dominates(stores_a[0], q):
+                    n_, c_, f_ = deep_sources(atf, tt['d'], depth=8)
+                    if any(c.endswith('impl Element>::parent') for c in c_):
+                        # `if let Some(parent) = self.parent()?`: the edges on which there is no parent (None) or parent() failed
+                        for tgt in set(dict(tt['ts']).values()) | {tt['else']}:
+                            if arc[0] not in atf.reach_from((tgt, 0), include_start=True):
+                                cuts.add((q[0], tgt))
+        okp = bool(oks_) and must_pass(atf, stores_a[0], [o for o in oks_ if o in atf.reach_from(stores_a[0])], through={arc[0]}, avoid_edges=cuts, include_start=False)
+    C.check(okp, 'C10-MUST-samemodel', 'Element::add_to_file|parents-are-extended-too', 'add_to_file extends the file set of the element but not (on every path) the sets of its parents: the element is attributed to a file that does not contain its parent and is missing from that file\'s text',
+            '%s:%d' % (atf.file, atf.line), sample={'fn': 'add_to_file', 'after_store': 'parent.add_to_file_restricted(file)'})
+    # a copy starts with an inherited (empty) file set: it must not carry the file set of its source to another place / model
+    from c13 import value_sources
+    dcp = P.get('ElementRaw::deep_copy')
+    lit_ = [s_ for pos, s_ in dcp.iter_stmts() if s_['k'] == 'assign' and s_['rv']['k'] == 'agg' and s_['rv'].get('adt') == 'ElementRaw']
+    okc = len(lit_) == 1
+    if okc:
+        lf_ = dict(zip(lit_[0]['rv']['fields'], lit_[0]['rv']['ops']))
+        vs_ = value_sources(dcp, lf_['file_membership'])
+        okc = bool(vs_) and all(k == 'call' and 'HashSet' in v and ('with_capacity' in v or '::new' in v or 'default' in v) for k, v in vs_)
+    C.check(okc, 'C10-WHO-membership', 'deep_copy|copy-starts-with-inherited-file-set', 'a deep copy takes over the file set of its source: placed below another parent (or in another model) it is restricted to files that do not contain its parent / do not belong to the model and is written to no file',
+            '%s:%d' % (dcp.file, dcp.line), sample={'fn': 'deep_copy', 'file_membership': 'HashSet::with_capacity(0)'})
     from c04 import callers_of
     ca = callers_of(P, 'Element::add_to_file_restricted')
     C.check(ca <= {'Element::add_to_file', 'Element::add_to_file_restricted', 'AutosarModel::create_file'}, 'C10-MUST-samemodel', 'add_to_file_restricted|callers', 'add_to_file_restricted (no model check of its own) has a new caller: %s' % sorted(ca))
